@@ -74,7 +74,7 @@ LOCATED = ("items", "additionalItems", "properties", "patternProperties", "addit
 
 class C05(Prop):
     ID = "C05"
-    QUICK = 600
+    QUICK = 1100
     THOROUGH = 14000
     RULE = ("case = (draft, schema object with 1-5 interaction-biased keywords, 3 drawn + <= 24 schema-derived "
             "instances).  (a) the multiset of error keys (keyword, message, path, schema path, keyword value, context "
